@@ -620,7 +620,7 @@ func c05Spaces(c *fw.Ctx) {
 			}
 		})
 
-	c.Space("type-codes", "all 65536 type codes: the numeric spelling TYPEnnn and, where the library has one, the mnemonic denote the same code; an unknown type prints as TYPEnnn with \\# rdata and re-parses to the same octets; every registered type written in the RFC 3597 generic form (\\# len hex of its default RDATA, also in upper-case hex digits split into two words) parses to the same record as its typed form; non-trivial: the code has a mnemonic", true,
+	c.Space("type-codes", "all 65536 type codes: the numeric spelling TYPEnnn and, where the library has one, the mnemonic denote the same code; an unknown type prints as TYPEnnn with \\# rdata and re-parses to the same octets; every registered type written in the RFC 3597 generic form (\\# len hex of its default RDATA, also in upper-case hex digits split into two words) parses to the same record as its typed form; a line that ends with its type (RDATA-less form; line break, next line, glued or separate comment behind it) reads the same with the mnemonic and with TYPEnnn; non-trivial: the code has a mnemonic", true,
 		func(emit func(func(*fw.R))) {
 			for code := 0; code < 65536; code++ {
 				t := uint16(code)
@@ -679,6 +679,32 @@ func c05Spaces(c *fw.Ctx) {
 						off, err := dns.PackRR(rr, packBuf, 0, nil, false)
 						if err != nil || !bytes.Equal(packBuf[:off], want) {
 							r.Fail("type-code/generic-form-differs", "NewRR(%q) packs to %x (%v), want %x", line, packBuf[:max(off, 0)], err, want)
+						}
+					}
+					if hasMn && mn != "None" && mn != "Reserved" && t != dns.TypeANY {
+						// a line that ends with its type (the RDATA-less form of a dynamic update): where the mnemonic is
+						// read, TYPEnnn is read the same way — with a line break, a comment or the end of the input behind it
+						for _, tail := range []string{"\n", "\nnext. 7 IN A 192.0.2.1\n", ";c\n", " ;c\n"} {
+							res := func(spell string) (string, error) {
+								zp := dns.NewZoneParser(strings.NewReader("host.example. 7 IN "+spell+tail), "", "")
+								rr, ok := zp.Next()
+								if !ok || rr == nil {
+									return "", zp.Err()
+								}
+								off, err := dns.PackRR(rr, packBuf, 0, nil, false)
+								if err != nil {
+									return "unpackable " + err.Error(), nil
+								}
+								return fmt.Sprintf("%x", packBuf[:off]), nil
+							}
+							a, ea := res(mn)
+							b, eb := res(num)
+							if a != "" && a != b {
+								r.Fail("type-code/line-ends-with-type", "'host.example. 7 IN %s%s' gives the record %s, but with %s in its place: %q (%v)", mn, strings.ReplaceAll(tail, "\n", "<LF>"), a, num, b, eb)
+							}
+							if a == "" && b != "" {
+								r.Fail("type-code/line-ends-with-type", "'host.example. 7 IN %s%s' gives the record %s, but with %s in its place an error: %v", num, strings.ReplaceAll(tail, "\n", "<LF>"), b, mn, ea)
+							}
 						}
 					}
 					if t%257 == 0 || s != nil {
